@@ -26,6 +26,7 @@ type cfgSpec struct {
 	same    bool    // "=": load the previous config's bytes again, unforced (no reload happens)
 	servers [][]int // address indices per HTTP server
 	fail    bool    // "!": the config's admin.config.load module cannot be provisioned: every app starts, then the load is rejected
+	admin   int     // address of the admin endpoint (adm0 / adm1), -1: disabled
 }
 
 func (c cfgSpec) has(a int) bool {
@@ -98,6 +99,7 @@ func (s snapshot) of(a int) string {
 }
 
 type event struct {
+	// M: the load's admin endpoint replacement (mod = address name or "-"), recorded before Load is called
 	kind  byte   // L R D (main markers)  P S E T C (callbacks)  B X (bind / close)  W J Z (swap / rejected / bind failed)  A F (in-flight accepted / finished)
 	gen   int    // generation (= index of the config in the sequence) the event belongs to; load index for L R D W J
 	mod   string // module (a b h0 w0 e started stopping), address name for B/X, token id for A/F, result for R
@@ -106,6 +108,7 @@ type event struct {
 	snap  snapshot
 	snap2 snapshot // X: after the close
 	ans   [nAddr]string
+	awin  bool         // a replaced admin endpoint may be shutting down concurrently
 	win   bool         // a retired config's listeners may be closing concurrently (after W/J, before drained)
 	hold  [nAddr][]int // harness-side: generations with an open (wrapped, not yet closed) listener, at snapshot time
 	res   string       // F: answer of the in-flight request
@@ -118,6 +121,8 @@ func (ev *event) String() string {
 	switch ev.kind {
 	case 'W', 'J', 'Z':
 		return head
+	case 'M':
+		return head + "." + ev.mod
 	case 'L', 'D':
 		return head + ":" + ev.snap.String() + ":" + strings.Join(ev.ans[:], "")
 	case 'B':
@@ -176,6 +181,9 @@ type runner struct {
 	fails  []core.Failure
 
 	traffic    trafficStats
+	admEpoch   atomic.Int64 // odd while a replaced admin endpoint may be shutting down
+	admAddr    int          // admin endpoint in effect: its address (-1: none) and the load that started it
+	admGen     int
 	resetsSeen int // probes reset while the replaced config's tcp listener was being closed
 }
 
@@ -243,7 +251,7 @@ const (
 )
 
 func (r *runner) record(kind byte, gen int, mod string, probe bool) *event {
-	ev := &event{kind: kind, gen: gen, mod: mod, load: r.loading, win: r.epoch.Load()%2 == 1}
+	ev := &event{kind: kind, gen: gen, mod: mod, load: r.loading, win: r.epoch.Load()%2 == 1, awin: r.admEpoch.Load()%2 == 1}
 	r.evMu.Lock()
 	ev.snap = r.snapshot()
 	ev.hold = r.holdersLocked()
@@ -253,6 +261,10 @@ func (r *runner) record(kind byte, gen int, mod string, probe bool) *event {
 		for a := 0; a < nAddr; a++ {
 			held := len(ev.hold[a]) > 0
 			switch {
+			case isAdmin(a) && (r.used[a] || kind == 'L' || kind == 'R' || kind == 'D'):
+				ev.ans[a], _, _ = r.env.get(a, "/id", probeTimeout)
+			case isAdmin(a):
+				ev.ans[a] = "-"
 			case !held && !r.used[a] && kind != 'L' && kind != 'R' && kind != 'D':
 				// an address no config of this scenario ever lists: looked at between loads only
 				ev.ans[a] = "-"
@@ -525,8 +537,12 @@ func (r *runner) configJSON(gen int, c cfgSpec) []byte {
 	if c.fail {
 		adminCfg["load"] = map[string]any{"module": "verif_c02", "gen": gen}
 	}
+	admin := map[string]any{"disabled": true, "config": adminCfg}
+	if c.admin >= 0 {
+		admin = map[string]any{"listen": r.env.poolKey(c.admin), "config": adminCfg}
+	}
 	cfg := map[string]any{
-		"admin":   map[string]any{"disabled": true, "config": adminCfg},
+		"admin":   admin,
 		"logging": map[string]any{"logs": map[string]any{"default": map[string]any{"writer": map[string]any{"output": "discard"}}}},
 		"storage": map[string]any{"module": "file_system", "root": r.env.dir + "/data"},
 		"apps":    apps,
